@@ -72,6 +72,9 @@ def one(job):
         return job, "error", "rc=%d %s" % (p.returncode, p.stderr[-800:]), None
     events = [json.loads(l) for l in open(path)]
     r = validate(path)
+    if not r.ok and not r.printed.get("REJECTED") and not r.violated:
+        # TLC did not reach a verdict (parse error, timeout, killed): infrastructure, never a violation
+        return job, "error", "TLC gave no verdict on the recorded trace: %s" % ((r.error or r.raw_tail or "")[:600]), None
     return job, ("accepted" if r.ok else "rejected"), r, events
 
 
